@@ -9,6 +9,7 @@ package c09
 
 import (
 	"context"
+	"log"
 	"fmt"
 	"io"
 	"log/slog"
@@ -28,6 +29,8 @@ import (
 	"go.uber.org/zap/verif/internal/mon"
 	"go.uber.org/zap/verif/internal/rng"
 	"go.uber.org/zap/zapcore"
+	"go.uber.org/zap/zapgrpc"
+	"go.uber.org/zap/zapio"
 	"go.uber.org/zap/zaptest/observer"
 )
 
@@ -94,6 +97,8 @@ type world struct {
 	sugars   []*zap.SugaredLogger
 	handlers []slog.Handler
 	cores    []zapcore.Core
+	stdlogs  []*log.Logger
+	grpcs    []*zapgrpc.Logger
 	lazyN    int
 }
 
@@ -280,6 +285,11 @@ func buildWorld(g *rng.R) *world {
 			w.loggers = append(w.loggers, d)
 		}
 		w.sugars = append(w.sugars, root.Sugar(), w.loggers[len(w.loggers)-1].Sugar())
+		w.stdlogs = append(w.stdlogs, zap.NewStdLog(root))
+		if sl, err := zap.NewStdLogAt(w.loggers[len(w.loggers)-1], zapcore.WarnLevel); err == nil {
+			w.stdlogs = append(w.stdlogs, sl)
+		}
+		w.grpcs = append(w.grpcs, zapgrpc.NewLogger(root), zapgrpc.NewLogger(w.loggers[len(w.loggers)-1], zapgrpc.WithDebug()))
 		hopts := []zapslog.HandlerOption{zapslog.WithName("slog")}
 		if g.Bool() {
 			hopts = append(hopts, zapslog.WithCaller(true))
@@ -628,6 +638,34 @@ var ops = []opFn{
 		_, _ = l.Write([]byte("direct\n"))
 		return "Locked.Write", ""
 	},
+	func(wk *worker) (string, string) { // std-log bridge, gRPC adapter, zapio.Writer over shared loggers
+		switch wk.g.Intn(6) {
+		case 0:
+			rng.Pick(wk.g, wk.w.stdlogs).Print(wk.msg())
+			return "stdlog-bridge(shared).Print", ""
+		case 1:
+			zap.NewStdLog(wk.logger()).Printf("%s %d", wk.msg(), wk.seq)
+			return "stdlog-bridge(new).Printf", ""
+		case 2:
+			gl := rng.Pick(wk.g, wk.w.grpcs)
+			gl.Infoln(wk.msg(), 1)
+			gl.Warningf("%s", wk.msg())
+			_ = gl.V(wk.g.Intn(4))
+			return "zapgrpc.Infoln/Warningf/V", ""
+		case 3:
+			gl := zapgrpc.NewLogger(wk.logger())
+			gl.Error(wk.msg())
+			gl.Print(wk.msg())
+			return "zapgrpc(new).Error/Print", ""
+		default:
+			zw := &zapio.Writer{Log: wk.logger(), Level: zapcore.InfoLevel}
+			_, _ = zw.Write([]byte(wk.msg() + "\npartial"))
+			_ = zw.Sync()
+			_, _ = zw.Write([]byte("second\n"))
+			_ = zw.Close()
+			return "zapio.Writer(private) over shared logger", ""
+		}
+	},
 	func(wk *worker) (string, string) { // cores used directly
 		c := rng.Pick(wk.g, wk.w.cores)
 		switch wk.g.Intn(4) {
@@ -924,7 +962,7 @@ func Child(r *ev.Run, args []string) {
 
 // Run is the C09 monitor (parent): batches of programs in race-build children.
 func Run(r *ev.Run) {
-	r.Rule = "program i = f(seed,i): shared world (1-2 root loggers over generated core compositions of JSON/console IO cores on Lock/BufferedWriteSyncer/multi sinks, observer, tee, sampler, hooked, increase-level, lazy and With cores; unused WithLazy/With/Named children; sugared loggers; slog handlers; two AtomicLevels; globals) x 2-16 goroutines x 20-200 operations drawn from 18 operation families (all Logger/Sugar log methods, Check+Write, With, WithLazy, Named, WithOptions, Level, Sync, AtomicLevel Level/SetLevel/Enabled/ServeHTTP/UnmarshalText, ReplaceGlobals/L/S, observer reads, slog Handle/WithAttrs/WithGroup/Enabled, BufferedWriteSyncer Write/Sync/Stop with harness ticks, locked syncers, cores directly); half the programs start on never-used loggers; race build, quiet perturbation at all hook points; distinct = distinct (program index, goroutines, ops, shared-object multiset)"
+	r.Rule = "program i = f(seed,i): shared world (1-2 root loggers over generated core compositions of JSON/console IO cores on Lock/BufferedWriteSyncer/multi sinks, observer, tee, sampler, hooked, increase-level, lazy and With cores; unused WithLazy/With/Named children; sugared loggers; slog handlers; two AtomicLevels; globals) x 2-16 goroutines x 20-200 operations drawn from 19 operation families (all Logger/Sugar log methods, Check+Write, With, WithLazy, Named, WithOptions, Level, Sync, AtomicLevel Level/SetLevel/Enabled/ServeHTTP/UnmarshalText, ReplaceGlobals/L/S, observer reads, slog Handle/WithAttrs/WithGroup/Enabled, BufferedWriteSyncer Write/Sync/Stop with harness ticks, locked syncers, cores directly); half the programs start on never-used loggers; race build, quiet perturbation at all hook points; distinct = distinct (program index, goroutines, ops, shared-object multiset)"
 	total := r.N(1600, 40000)
 	batch := r.N(100, 500)
 	par := 4
